@@ -8,9 +8,11 @@ CONSTANTS MaxMarkers, ScopeCfgs
 (* the rendered module also holds a function g, a class K with a method meth, an            *)
 (* `if __name__ == "__main__":` block and an `if TYPE_CHECKING:` block; scope configurations *)
 (* name what --no-cover / --only-cover say                                                   *)
-FCov(sc) == sc \in {"none", "no_g", "only_f", "no_meth", "no_K"}
-GCov(sc) == sc \in {"none", "no_meth", "no_K"}
-MethCov(sc) == sc \in {"none", "no_g", "only_K"}
+(* (and a method `deep` of a class nested in a class: Outer.Inner.deep, three levels)         *)
+FCov(sc) == sc \in {"none", "no_g", "only_f", "no_meth", "no_K", "no_deep", "no_Inner"}
+GCov(sc) == sc \in {"none", "no_meth", "no_K", "no_deep", "no_Inner"}
+MethCov(sc) == sc \in {"none", "no_g", "only_K", "no_deep", "no_Inner"}
+DeepCov(sc) == sc \in {"none", "no_g", "no_meth", "no_K", "only_deep"}
 
 VARIABLES case
 Init == case = [prog |-> <<>>]
@@ -20,7 +22,8 @@ Next == /\ case.prog = <<>>
                case' = [prog |-> p, markers |-> M, scope |-> sc,
                         goals |-> IF FCov(sc) THEN LineGoals(p, M) ELSE {},
                         preds |-> IF FCov(sc) THEN PredGoals(p, M) ELSE {},
-                        excluded |-> Excluded(p, M), fcov |-> FCov(sc), gcov |-> GCov(sc), methcov |-> MethCov(sc)]
+                        excluded |-> Excluded(p, M), fcov |-> FCov(sc), gcov |-> GCov(sc), methcov |-> MethCov(sc),
+                        deepcov |-> DeepCov(sc)]
 Spec == Init /\ [][Next]_case
 Emit == case.prog # <<>> => PrintT(<<"HIST", ToJson(case)>>)
 =============================================================================
